@@ -182,9 +182,9 @@ pub fn check(c: &Case) -> Verdict {
                 Some(f) => vec![all[*f as usize % all.len()].clone()],
                 None => all,
             };
-            of.inject = Some(Inject { syscall: "write".into(), action: "error=ENOSPC".into(), when: *k as u64, paths })
+            of.inject = Some(Inject { syscall: "write".into(), action: "error=ENOSPC".into(), when: *k as u64, paths, when_expr: None })
         }
-        Fault::Kill { syscall, k } => of.inject = Some(Inject { syscall: syscall.clone(), action: "signal=KILL".into(), when: *k as u64, paths: tmp_paths(c.cb, &dump) }),
+        Fault::Kill { syscall, k } => of.inject = Some(Inject { syscall: syscall.clone(), action: "signal=KILL".into(), when: *k as u64, paths: tmp_paths(c.cb, &dump), when_expr: None }),
         _ => {}
     }
     let out = infra!(vpmodel::run::run_tool(&p.data, &dump, &of));
